@@ -159,10 +159,20 @@ def run_one(spec):
         res['late_refused'] = late is None and all(x is None for x in late_others)
         res['census'] = census(pool, allpids)
     elif kind == 'terminate':
-        pool = bp.Pool(spec.get('n', 2), threads=True)
+        pool = bp.Pool(spec.get('n', 2), threads=True, maxtasksperchild=spec.get('maxtasks'))
         pids = [p.pid for p in pool._pool]
         done = pool.apply_async(t_double, (21,))
         done.get(timeout=10)
+        if spec.get('maxtasks'):
+            # every original worker is recycled first: terminate() then has to deal with replacements
+            warm = [pool.apply_async(t_double, (i,)) for i in range(spec.get('n', 2) * spec['maxtasks'])]
+            for w in warm:
+                w.get(timeout=10)
+            deadline = time.time() + 10
+            while time.time() < deadline and (set(pids) & {p.pid for p in pool._pool} or len(pool._pool) < spec.get('n', 2)):
+                time.sleep(0.1)
+            res['replaced'] = not (set(pids) & {p.pid for p in pool._pool})
+            time.sleep(0.3)
         fn = dict(idle=None, busy=t_sleep, handler=t_in_handler, lock_lost=t_lose_wlock_at_term)[spec['state']]
         rs = []
         if fn is not None:
